@@ -59,3 +59,26 @@ Theorem c04_profile_only_if_missing : forall claim tok o v,
   get_claim_from claim o = Some v.
 Proof. exact get_claim_profile_only_if_missing. Qed.
 Print Assumptions c04_profile_only_if_missing.
+
+(* ---- extra JWT issuers: "<issuer>=<audience>" ---- *)
+From V.Lib Require Import Bytes.
+From V.Model Require JwtIssuers.
+From V.Proofs Require JwtIssuersProofs.
+
+(* An --extra-jwt-issuers entry whose issuer part holds no "=" configures EXACTLY the audience written after the first
+   "=", whatever that audience contains (a query string, base64 padding, key=value pairs): the verifier built for that
+   issuer accepts tokens for that audience and no shorter or longer one. *)
+Theorem c04_extra_issuer_audience : forall uri aud,
+  memb JwtIssuers.eq_sign uri = false ->
+  JwtIssuers.parse_jwt_issuer (uri ++ JwtIssuers.eq_sign :: aud) = Some (uri, aud).
+Proof. exact JwtIssuersProofs.parse_issuer_spec. Qed.
+Print Assumptions c04_extra_issuer_audience.
+
+Theorem c04_extra_issuer_needs_audience : forall spec,
+  memb JwtIssuers.eq_sign spec = false -> JwtIssuers.parse_jwt_issuer spec = None.
+Proof. exact JwtIssuersProofs.parse_issuer_no_eq. Qed.
+Print Assumptions c04_extra_issuer_needs_audience.
+
+Example c04_extra_issuer_audience_with_query :
+  JwtIssuers.parse_jwt_issuer (s "https://idp2.example=api://reports?env=prod&x=1") = Some (s "https://idp2.example", s "api://reports?env=prod&x=1").
+Proof. vm_compute. reflexivity. Qed.
